@@ -186,44 +186,6 @@ Proof.
   eexists. split; [reflexivity|]. split; reflexivity.
 Qed.
 
-(* a ruleset whose selector is one identifier *)
-Lemma step_begin p st0 o1 sel o2 lb ts :
-  wf_state p (SStylesheet :: st0) (optws o1 ++ (TIdent, sel) :: optws o2 ++ (TLeftBrace, lb) :: ts) ->
-  one_of [44; 62; 43; 126] sel = false ->
-  exists p', parse_next p = POk (GBeginRuleset, p') /\ ptt p' = TWhitespace /\ pdata p' = [] /\
-    pbuf p' = [(TIdent, sel)] /\ perr p' = false /\
-    wf_state p' (SQualifiedRuleDeclarationList :: SStylesheet :: st0) ts.
-Proof.
-  intros (Hi & Hl & Hst & Hlv & Hpe & Hkw & Hsty) Hsp.
-  assert (HFk : exists k, next_fuel p = S (S (S k))).
-  { destruct o1; cbn [optws app] in Hl; eapply next_fuel_lexes; eassumption. }
-  destruct HFk as (k & HF).
-  destruct o1 as [w1|], o2 as [w2|]; cbn [optws app] in Hl.
-  all: unfold parse_next; cbv zeta; change (prevend (set_err p false)) with (prevend p); rewrite Hpe.
-  all: pop_tac (next_fuel p) true (set_err p false) Hi Hkw Hl (eq_refl true) (next_fuel_pos p Hi) z1 Hpop Hl1 Hi1.
-  all: rewrite Hpop; cbn [pbind fst snd]; rewrite HF; set (F := S (S (S k))).
-  all: cbn [set_tok relex set_err pst]; rewrite Hst.
-  all: unfold parse_stylesheet; cbn [set_tok ptt]; evis; cbn [orb]; unfold parse_qualified_rule.
-  all: unfold F at 1; cbn [qualified_loop pbind fst snd set_tok set_buf ptt pdata]; evis; cbn [andb].
-  all: unfold closes; evis; cbn [orb andb]; unfold adjust_level, opens, closes; evis; cbn [orb].
-  all: rewrite Hsp; cbn [negb andb set_tok set_buf relex set_err prevws].
-  (* second iteration: the '{' *)
-  all: match goal with |- context [pop_token _ false ?q] => set (p2 := q) end.
-  all: assert (Hi2 : css_inv (pl p2)) by exact Hi1.
-  all: assert (Hk2 : keepws p2 = false) by exact Hkw.
-  all: assert (HF1 : (1 <= F)%nat) by (unfold F; lia).
-  all: pop_tac F false p2 Hi2 Hk2 Hl1 (eq_refl true) HF1 z2 Hpop2 Hl3 Hi3.
-  all: rewrite Hpop2; cbn [pbind fst snd]; evis.
-  all: match goal with |- context [plevel (relex ?pp ?zz ?w false)] =>
-         assert (Hlv2 : plevel (relex pp zz w false) = 0) by exact Hlv; rewrite Hlv2 end.
-  all: cbn [Z.eqb andb].
-  all: eexists; split; [reflexivity|]; subst p2.
-  all: cbn [push_st set_st push_buf set_buf set_tok relex set_err ptt pdata pbuf perr app].
-  all: split; [reflexivity|]; split; [reflexivity|]; split; [reflexivity|]; split; [reflexivity|].
-  all: unfold wf_state; cbn [push_st set_st push_buf set_buf set_tok relex set_err pl pst plevel prevend keepws isstyle].
-  all: split; [exact Hi3|]; split; [exact Hl3|]; rewrite Hst; auto.
-Qed.
-
 Lemma declaration_loop_S f F p : declaration_loop (S f) F p =
   (r <-- pop_token F false p ;;
    let t := fst (fst r) in let d := snd (fst r) in let p := snd r in
@@ -251,89 +213,456 @@ Lemma declaration_loop_S f F p : declaration_loop (S f) F p =
      declaration_loop f F (push_buf p t d)).
 Proof. reflexivity. Qed.
 
-(* a declaration  ident ':' value ';'  inside a ruleset, with optional whitespace before each of its tokens *)
-Lemma step_decl p st0 o1 prop o2 c o3 vt vb o4 s ts :
-  wf_state p (SQualifiedRuleDeclarationList :: st0)
-           (optws o1 ++ (TIdent, prop) :: optws o2 ++ (TColon, c) :: optws o3 ++ (vt, vb) :: optws o4 ++ (TSemicolon, s) :: ts) ->
-  is_val vt = true -> punct (vt, vb) = false ->
-  exists p', parse_next p = POk (GDeclaration, p') /\ ptt p' = TIdent /\ pdata p' = to_lower prop /\
-    pbuf p' = [(vt, vb)] /\ perr p' = false /\ wf_state p' (SQualifiedRuleDeclarationList :: st0) ts.
+(* --- multi-token values and selectors ------------------------------------------------------------------------------- *)
+Definition sp : tok := (TWhitespace, [32]).
+Definition wtok := (ws_t * tok)%type.                      (* a token and the whitespace before it *)
+Definition src_toks (l : list wtok) : list tok := flat_map (fun x => optws (fst x) ++ [snd x]) l.
+Definition buf_toks (l : list wtok) : list tok := flat_map (fun x => (if isws (fst x) then [sp] else []) ++ [snd x]) l.
+
+(* the bracket level after a token, and the tokens a value or selector may contain at level lv: no whitespace or
+   comment (they are the ws_t), no '{' '}' ';', and a closing bracket only inside an open one *)
+Definition tok_lv (lv : Z) (t : ttype) : Z := if opens t then lv + 1 else if closes t then lv - 1 else lv.
+Definition vtok_ok (lv : Z) (t : ttype) : bool :=
+  plain_tok t && negb (is_t t TError) && negb (is_t t TLeftBrace) && negb (is_t t TRightBrace) && negb (is_t t TSemicolon)
+  && (negb (closes t) || (0 <? lv)).
+Fixpoint toks_ok (lv : Z) (l : list wtok) : Prop :=
+  match l with [] => True | x :: r => vtok_ok lv (fst (snd x)) = true /\ toks_ok (tok_lv lv (fst (snd x))) r end.
+Fixpoint lv_after (lv : Z) (l : list wtok) : Z :=
+  match l with [] => lv | x :: r => lv_after (tok_lv lv (fst (snd x))) r end.
+
+Lemma vtok_ok_inv lv t : vtok_ok lv t = true ->
+  plain_tok t = true /\ is_t t TError = false /\ is_t t TLeftBrace = false /\ is_t t TRightBrace = false /\
+  is_t t TSemicolon = false /\ (closes t = true -> 0 < lv) /\ is_t t TWhitespace = false.
 Proof.
-  intros (Hi & Hl & Hst & Hlv & Hpe & Hkw & Hsty) Hval Hpun.
-  assert (HFk : exists k, next_fuel p = S (S (S k))).
-  { destruct o1; cbn [optws app] in Hl; eapply next_fuel_lexes; eassumption. }
-  destruct HFk as (k & HF).
-  assert (Hplain : plain_tok vt = true) by (destruct vt; try discriminate Hval; reflexivity).
-  assert (Hws : is_t vt TWhitespace = false) by (destruct vt; try discriminate Hval; reflexivity).
-  assert (Hnot : forall q, ends_unit q vt = false /\ is_t vt TLeftBrace = false /\ closes vt = false /\ opens vt = false).
-  { intros q. unfold ends_unit, closes, opens. destruct vt; try discriminate Hval; repeat split; reflexivity. }
-  destruct o1 as [w1|], o2 as [w2|], o3 as [w3|], o4 as [w4|]; cbn [optws app] in Hl.
-  all: unfold parse_next; cbv zeta; change (prevend (set_err p false)) with (prevend p); rewrite Hpe.
-  all: pop_tac (next_fuel p) true (set_err p false) Hi Hkw Hl (eq_refl true) (next_fuel_pos p Hi) z1 Hpop Hl1 Hi1.
-  all: rewrite Hpop; cbn [pbind fst snd]; rewrite HF; set (F := S (S (S k))).
-  all: assert (HF1 : (1 <= F)%nat) by (unfold F; lia).
-  all: cbn [set_tok relex set_err pst]; rewrite Hst.
-  all: unfold parse_qualified_rule_declaration_list; rewrite skip_semicolons_none by (cbn; discriminate); cbn [pbind]; cbv zeta.
-  all: cbn [set_tok ptt]; evis; cbn [orb].
-  all: unfold parse_declaration_list; cbn [set_tok ptt]; evis; cbn [pbind].
-  all: rewrite skip_semicolons_none by (cbn; discriminate); cbn [pbind set_tok ptt]; evis; cbn [pbind orb]; cbv zeta; cbn [set_tok ptt]; evis.
-  all: cbn [orb]; unfold parse_declaration; cbn [set_tok ptt pdata]; evis; cbv beta iota.
+  unfold vtok_ok. intros H. repeat (apply andb_true_iff in H; destruct H as [H ?]).
+  repeat match goal with X : negb _ = true |- _ => apply negb_true_iff in X end.
+  repeat split; try assumption.
+  - unfold plain_tok. rewrite H, H5. reflexivity.
+  - intros Hc. rewrite Hc in H0. cbn in H0. lia.
+Qed.
+
+Lemma adjust_level_f p t : pbuf (adjust_level p t) = pbuf p /\ prevws (adjust_level p t) = prevws p /\
+  prevcomment (adjust_level p t) = prevcomment p /\ plevel (adjust_level p t) = tok_lv (plevel p) t.
+Proof. unfold adjust_level, tok_lv. destruct (opens t); [repeat split|]. destruct (closes t); repeat split. Qed.
+
+(* the parser after one more token (t, b) of a value: lexer at z', w = whitespace was skipped before the token *)
+Definition after_tok (p : parser) (z' : lx) (w : bool) (t : ttype) (b : list Z) : parser :=
+  push_buf (let q := adjust_level (relex p z' w false) t in if w then push_buf q TWhitespace [32] else q) t b.
+
+Definition rest_same (p p' : parser) : Prop :=
+  keepws p' = keepws p /\ pst p' = pst p /\ ptt p' = ptt p /\ pdata p' = pdata p /\ perr p' = perr p /\
+  prevend p' = prevend p /\ isstyle p' = isstyle p.
+
+Lemma rest_same_trans p q r : rest_same p q -> rest_same q r -> rest_same p r.
+Proof. unfold rest_same. intros (A1 & A2 & A3 & A4 & A5 & A6 & A7) (B1 & B2 & B3 & B4 & B5 & B6 & B7). repeat split; congruence. Qed.
+
+Lemma after_tok_f p z' w t b : pl (after_tok p z' w t b) = z' /\
+  pbuf (after_tok p z' w t b) = pbuf p ++ (if w then [sp] else []) ++ [(t, b)] /\
+  plevel (after_tok p z' w t b) = tok_lv (plevel p) t /\ rest_same p (after_tok p z' w t b).
+Proof.
+  unfold after_tok, adjust_level, tok_lv, rest_same, sp.
+  destruct w, (opens t), (closes t); cbn; rewrite <- ?app_assoc; repeat split.
+Qed.
+
+(* one iteration of the loop of parseDeclaration on a value token *)
+Lemma decl_iter f F p o t b ts : css_inv (pl p) -> keepws p = false -> (1 <= F)%nat ->
+  lexes (pl p) (optws o ++ (t, b) :: ts) -> vtok_ok (plevel p) t = true ->
+  (exists B x, pbuf p = B ++ [x] /\ is_wstok x = false) ->
+  exists z', css_inv z' /\ lexes z' ts /\
+    declaration_loop (S f) F p = declaration_loop f F (after_tok p z' (isws o) t b).
+Proof.
+  intros Hi Hkw HF Hl Hv (B & x & Hb & Hx).
+  destruct (vtok_ok_inv _ _ Hv) as (Hp & Herr & Hlb & Hrb & Hsemi & Hcl & _).
+  destruct (pop_token_ows F false p o t b ts Hi Hkw Hl Hp HF) as (z' & Hpop & Hl' & Hi').
+  exists z'. split; [exact Hi'|]. split; [exact Hl'|].
+  rewrite declaration_loop_S, Hpop. cbn [pbind fst snd]. unfold ends_unit. rewrite Hsemi, Hrb, Herr, Hlb. cbn [orb andb].
+  assert (Hc0 : closes t && (plevel (relex p z' (isws o) false) =? 0) = false).
+  { cbn [relex plevel]. destruct (closes t); [|reflexivity]. specialize (Hcl eq_refl). cbn [andb]. lia. }
+  rewrite Hc0. cbv zeta.
+  destruct (adjust_level_f (relex p z' (isws o) false) t) as (F1 & F2 & F3 & _). rewrite F1, F2, F3.
+  cbn [relex pbuf prevws prevcomment]. rewrite Hb, rev_app_distr. cbn [rev app of_opt pbind]. rewrite Hx, orb_false_r.
+  cbn [negb]. rewrite andb_true_r. reflexivity.
+Qed.
+
+Lemma src_toks_cons o tk r ts : src_toks ((o, tk) :: r) ++ ts = optws o ++ tk :: (src_toks r ++ ts).
+Proof. unfold src_toks. cbn [flat_map fst snd]. rewrite <- !app_assoc. reflexivity. Qed.
+
+Lemma buf_toks_cons o tk r : buf_toks ((o, tk) :: r) = (if isws o then [sp] else []) ++ tk :: buf_toks r.
+Proof. unfold buf_toks. cbn [flat_map fst snd]. rewrite <- !app_assoc. reflexivity. Qed.
+
+(* ... and on all tokens of a value *)
+Lemma decl_values F ts : (1 <= F)%nat -> forall vl f p, css_inv (pl p) -> keepws p = false ->
+  lexes (pl p) (src_toks vl ++ ts) -> toks_ok (plevel p) vl ->
+  (exists B x, pbuf p = B ++ [x] /\ is_wstok x = false) ->
+  exists p', declaration_loop (length vl + f) F p = declaration_loop f F p' /\ css_inv (pl p') /\ lexes (pl p') ts /\
+    pbuf p' = pbuf p ++ buf_toks vl /\ plevel p' = lv_after (plevel p) vl /\ rest_same p p'.
+Proof.
+  intros HF. induction vl as [|[o [t b]] vl IH]; intros f p Hi Hkw Hl Hok Hb.
+  - exists p. cbn [length Nat.add src_toks buf_toks flat_map app lv_after] in *. rewrite app_nil_r.
+    split; [reflexivity|]. split; [exact Hi|]. split; [exact Hl|]. split; [reflexivity|]. split; [reflexivity|].
+    unfold rest_same. repeat split.
+  - rewrite src_toks_cons in Hl. cbn [toks_ok fst snd] in Hok. destruct Hok as (Hv & Hok).
+    destruct (decl_iter (length vl + f) F p o t b _ Hi Hkw HF Hl Hv Hb) as (z' & Hi' & Hl' & Heq).
+    destruct (after_tok_f p z' (isws o) t b) as (G1 & G2 & G3 & G4).
+    set (p1 := after_tok p z' (isws o) t b) in *.
+    destruct (vtok_ok_inv _ _ Hv) as (_ & _ & _ & _ & _ & _ & Hws).
+    destruct (IH f p1) as (p' & Hrun & Hi2 & Hl2 & Hb2 & Hlv2 & Hs2).
+    + rewrite G1. exact Hi'.
+    + destruct G4 as (G4 & _). rewrite G4. exact Hkw.
+    + rewrite G1. exact Hl'.
+    + rewrite G3. exact Hok.
+    + exists (pbuf p ++ (if isws o then [sp] else [])), (t, b). split; [rewrite G2, app_assoc; reflexivity|exact Hws].
+    + exists p'. cbn [length Nat.add]. rewrite Heq, Hrun. split; [reflexivity|]. split; [exact Hi2|]. split; [exact Hl2|].
+      split; [rewrite Hb2, G2, buf_toks_cons, <- !app_assoc; reflexivity|]. split; [rewrite Hlv2, G3; reflexivity|].
+      eapply rest_same_trans; eassumption.
+Qed.
+
+(* the ';' that ends the declaration *)
+Lemma decl_end f F p o s ts b0 after c vals : css_inv (pl p) -> keepws p = false -> (1 <= F)%nat -> plevel p = 0 ->
+  lexes (pl p) (optws o ++ (TSemicolon, s) :: ts) -> pbuf p = b0 :: after -> drop_ws after = (TColon, c) :: vals ->
+  exists z', css_inv z' /\ lexes z' ts /\
+    declaration_loop (S f) F p =
+      POk (GDeclaration, set_prevend (set_tok (set_buf (relex p z' (isws o) false) (compact [] (drop_ws vals)))
+                                              (ptt p) (to_lower (pdata p))) false).
+Proof.
+  intros Hi Hkw HF Hlv Hl Hb Hd.
+  destruct (pop_token_ows F false p o TSemicolon s ts Hi Hkw Hl eq_refl HF) as (z' & Hpop & Hl' & Hi').
+  exists z'. split; [exact Hi'|]. split; [exact Hl'|].
+  rewrite declaration_loop_S, Hpop. cbn [pbind fst snd]. unfold ends_unit. cbn [relex plevel pbuf]. rewrite Hlv, Hb, Hd.
+  cbn [fst]. evis. cbn [Z.eqb orb andb]. reflexivity.
+Qed.
+
+(* the expected Values(): a single space where the source has whitespace between two tokens neither of which is one
+   of the punctuation bytes , / : ! = *)
+Fixpoint join (prev : tok) (l : list wtok) : list tok :=
+  match l with
+  | [] => []
+  | x :: r => (if isws (fst x) && negb (punct prev) && negb (punct (snd x)) then [sp] else []) ++ snd x :: join (snd x) r
+  end.
+Definition expected_vals (vl : list wtok) : list tok :=
+  match vl with x :: r => snd x :: join (snd x) r | [] => [] end.
+
+Lemma compact_sp last out nxt rest : compact (last :: out) (sp :: nxt :: rest) =
+  if punct last then compact (last :: out) (nxt :: rest)
+  else if punct nxt then compact (last :: out) (nxt :: rest) else compact (nxt :: sp :: last :: out) rest.
+Proof. reflexivity. Qed.
+
+Lemma compact_join : forall r t out, is_wstok t = false -> Forall (fun x => is_wstok (snd x) = false) r ->
+  compact (t :: out) (buf_toks r) = rev out ++ t :: join t r.
+Proof.
+  induction r as [|[o [tt bb]] r IH]; intros t out Ht Hr.
+  - cbn [buf_toks flat_map compact join rev]. reflexivity.
+  - inversion Hr as [|? ? Hx Hr']; subst. cbn [snd] in Hx. rewrite buf_toks_cons. cbn [join fst snd].
+    assert (Hnext : compact (t :: out) ((tt, bb) :: buf_toks r) = rev out ++ t :: (tt, bb) :: join (tt, bb) r).
+    { cbn [compact]. rewrite Hx. rewrite (IH (tt, bb) (t :: out) Hx Hr'). cbn [rev]. rewrite <- app_assoc. reflexivity. }
+    destruct o as [wb|]; cbn [isws app andb]; [|exact Hnext].
+    rewrite compact_sp.
+    destruct (punct t); cbn [negb andb app]; [exact Hnext|].
+    destruct (punct (tt, bb)); cbn [negb app]; [exact Hnext|].
+    rewrite (IH (tt, bb) (sp :: t :: out) Hx Hr'). cbn [rev]. rewrite <- !app_assoc. reflexivity.
+Qed.
+
+Lemma toks_ok_nonws : forall vl lv, toks_ok lv vl -> Forall (fun x => is_wstok (snd x) = false) vl.
+Proof.
+  induction vl as [|x vl IH]; intros lv H; [constructor|]. cbn [toks_ok] in H. destruct H as (Hv & H).
+  constructor; [|eapply IH; exact H]. destruct (vtok_ok_inv _ _ Hv) as (_ & _ & _ & _ & _ & _ & Hws). exact Hws.
+Qed.
+
+Lemma compact_expected vl lv : vl <> [] -> toks_ok lv vl -> compact [] (drop_ws (buf_toks vl)) = expected_vals vl.
+Proof.
+  intros Hne Hok. destruct vl as [|[o [t b]] r]; [congruence|].
+  pose proof (toks_ok_nonws _ _ Hok) as Hall. inversion Hall as [|? ? Hx Hr]; subst. cbn [snd] in Hx.
+  rewrite buf_toks_cons. unfold expected_vals. cbn [snd].
+  assert (Hc : compact [] ((t, b) :: buf_toks r) = (t, b) :: join (t, b) r).
+  { cbn [compact]. rewrite Hx. rewrite (compact_join r (t, b) [] Hx Hr). reflexivity. }
+  destruct o; cbn [isws app drop_ws]; [change (is_wstok sp) with true; cbv beta iota; cbn [drop_ws]|]; rewrite Hx; exact Hc.
+Qed.
+
+(* the number of tokens left bounds the fuel *)
+Lemma lexes_len : forall toks z, css_inv z -> lexes z toks -> Z.of_nat (length toks) <= lx_len z - lpos z.
+Proof.
+  induction toks as [|[t b] toks IH]; intros z Hi Hl.
+  - destruct (inv_data z Hi) as (_ & _ & Hp). cbn [length]. lia.
+  - destruct (lexes_cons _ _ _ _ Hl) as (z' & Hn & Hl' & He).
+    destruct (css_next_step z Hi) as [(_ & Hn')|(ty & b' & z2 & Hn' & _ & Hi2 & Hbuf & Hp & _)]; rewrite Hn in Hn'.
+    + assert (t = TError) by congruence. subst. discriminate.
+    + assert (z2 = z') by congruence. subst z2. specialize (IH z' Hi2 Hl').
+      assert (lx_len z' = lx_len z) by (unfold lx_len; rewrite Hbuf; reflexivity). cbn [length]. lia.
+Qed.
+
+Lemma src_toks_len vl : (length vl <= length (src_toks vl))%nat.
+Proof.
+  induction vl as [|[o tk] vl IH]; [cbn; lia|]. unfold src_toks in *. cbn [flat_map fst snd]. rewrite !app_length. cbn [length]. lia.
+Qed.
+
+Lemma fuel_split p n m : Z.of_nat m <= lx_len (pl p) - lpos (pl p) -> (n + 2 <= m)%nat ->
+  exists f', next_fuel p = S (n + S f').
+Proof. intros H1 H2. exists (next_fuel p - n - 2)%nat. unfold next_fuel. lia. Qed.
+
+(* --- selectors ------------------------------------------------------------------------------------------------------ *)
+Definition combinator (b : list Z) : bool := one_of [44; 62; 43; 126] b.          (* , > + ~ *)
+Definition ia_next (ia : bool) (t : ttype) : bool :=
+  if is_t t TLeftBracket then true else if is_t t TRightBracket then false else ia.
+Definition addws_sel (w sk ia : bool) (b : list Z) : bool := negb (combinator b) && w && negb sk && negb ia.
+Definition after_sel (p : parser) (z' : lx) (w : bool) (t : ttype) (b : list Z) (ia sk : bool) : parser :=
+  push_buf (let q := adjust_level (relex p z' w false) t in if addws_sel w sk ia b then push_buf q TWhitespace [32] else q) t b.
+
+(* the expected Values() of a selector: a single space exactly where the source has whitespace between two tokens
+   neither of which is a combinator , > + ~ and that are not inside [ ]; sk = the previous token was a combinator
+   (or there is none), ia = inside an attribute selector *)
+Fixpoint sel_buf (sk ia : bool) (l : list wtok) : list tok :=
+  match l with
+  | [] => []
+  | x :: r => (if addws_sel (isws (fst x)) sk ia (snd (snd x)) then [sp] else []) ++ snd x ::
+              sel_buf (combinator (snd (snd x))) (ia_next ia (fst (snd x))) r
+  end.
+Definition expected_sel (l : list wtok) : list tok := sel_buf true false l.
+
+Lemma after_sel_f p z' w t b ia sk : pl (after_sel p z' w t b ia sk) = z' /\
+  pbuf (after_sel p z' w t b ia sk) = pbuf p ++ (if addws_sel w sk ia b then [sp] else []) ++ [(t, b)] /\
+  plevel (after_sel p z' w t b ia sk) = tok_lv (plevel p) t /\ rest_same p (after_sel p z' w t b ia sk).
+Proof.
+  unfold after_sel, adjust_level, tok_lv, rest_same, sp.
+  destruct (addws_sel w sk ia b), (opens t), (closes t); cbn; rewrite <- ?app_assoc; repeat split.
+Qed.
+
+(* one iteration of the loop of parseQualifiedRule on a selector token *)
+Lemma qual_iter f F p o t b ts ia sk : css_inv (pl p) -> keepws p = false -> (1 <= F)%nat ->
+  lexes (pl p) (optws o ++ (t, b) :: ts) -> vtok_ok (plevel p) t = true ->
+  exists z', css_inv z' /\ lexes z' ts /\
+    qualified_loop (S f) F p false ia sk =
+    qualified_loop f F (after_sel p z' (isws o) t b ia sk) false (ia_next ia t) (combinator b).
+Proof.
+  intros Hi Hkw HF Hl Hv.
+  destruct (vtok_ok_inv _ _ Hv) as (Hp & Herr & Hlb & Hrb & Hsemi & Hcl & _).
+  destruct (pop_token_ows F false p o t b ts Hi Hkw Hl Hp HF) as (z' & Hpop & Hl' & Hi').
+  exists z'. split; [exact Hi'|]. split; [exact Hl'|].
+  cbn [qualified_loop]. rewrite Hpop. cbn [pbind fst snd]. rewrite Hlb, Herr. cbn [andb].
+  assert (Hc0 : closes t && (plevel (relex p z' (isws o) false) =? 0) = false).
+  { cbn [relex plevel]. destruct (closes t); [|reflexivity]. specialize (Hcl eq_refl). cbn [andb]. lia. }
+  rewrite Hc0. cbv zeta.
+  destruct (adjust_level_f (relex p z' (isws o) false) t) as (_ & F2 & _). rewrite F2. cbn [relex prevws].
+  unfold after_sel, addws_sel, ia_next, combinator.
+  destruct (one_of [44; 62; 43; 126] b), (isws o), sk, ia; reflexivity.
+Qed.
+
+Lemma qual_tokens F ts : (1 <= F)%nat -> forall sl f p ia sk, css_inv (pl p) -> keepws p = false ->
+  lexes (pl p) (src_toks sl ++ ts) -> toks_ok (plevel p) sl ->
+  exists p' ia' sk', qualified_loop (length sl + f) F p false ia sk = qualified_loop f F p' false ia' sk' /\
+    css_inv (pl p') /\ lexes (pl p') ts /\ pbuf p' = pbuf p ++ sel_buf sk ia sl /\
+    plevel p' = lv_after (plevel p) sl /\ rest_same p p'.
+Proof.
+  intros HF. induction sl as [|[o [t b]] sl IH]; intros f p ia sk Hi Hkw Hl Hok.
+  - exists p, ia, sk. cbn [length Nat.add src_toks sel_buf flat_map app lv_after] in *. rewrite app_nil_r.
+    split; [reflexivity|]. split; [exact Hi|]. split; [exact Hl|]. split; [reflexivity|]. split; [reflexivity|].
+    unfold rest_same. repeat split.
+  - rewrite src_toks_cons in Hl. cbn [toks_ok fst snd] in Hok. destruct Hok as (Hv & Hok).
+    destruct (qual_iter (length sl + f) F p o t b _ ia sk Hi Hkw HF Hl Hv) as (z' & Hi' & Hl' & Heq).
+    destruct (after_sel_f p z' (isws o) t b ia sk) as (G1 & G2 & G3 & G4).
+    set (p1 := after_sel p z' (isws o) t b ia sk) in *.
+    destruct (IH f p1 (ia_next ia t) (combinator b)) as (p' & ia' & sk' & Hrun & Hi2 & Hl2 & Hb2 & Hlv2 & Hs2).
+    + rewrite G1. exact Hi'.
+    + destruct G4 as (G4 & _). rewrite G4. exact Hkw.
+    + rewrite G1. exact Hl'.
+    + rewrite G3. exact Hok.
+    + exists p', ia', sk'. cbn [length Nat.add]. rewrite Heq, Hrun. split; [reflexivity|]. split; [exact Hi2|]. split; [exact Hl2|].
+      split; [rewrite Hb2, G2; cbn [sel_buf fst snd]; rewrite <- !app_assoc; reflexivity|]. split; [rewrite Hlv2, G3; reflexivity|].
+      eapply rest_same_trans; eassumption.
+Qed.
+
+(* the first iteration takes the token Next has already read *)
+Definition after_first (p : parser) : parser :=
+  push_buf (adjust_level (set_tok p TWhitespace []) (ptt p)) (ptt p) (pdata p).
+
+Lemma qual_first f F p : vtok_ok (plevel p) (ptt p) = true ->
+  qualified_loop (S f) F p true false true =
+  qualified_loop f F (after_first p) false (ia_next false (ptt p)) (combinator (pdata p)).
+Proof.
+  intros Hv. destruct (vtok_ok_inv _ _ Hv) as (Hp & Herr & Hlb & Hrb & Hsemi & Hcl & _).
+  cbn [qualified_loop pbind fst snd]. rewrite Hlb, Herr. cbn [andb].
+  assert (Hc0 : closes (ptt p) && (plevel (set_tok p TWhitespace []) =? 0) = false).
+  { cbn [set_tok plevel]. destruct (closes (ptt p)); [|reflexivity]. specialize (Hcl eq_refl). cbn [andb]. lia. }
+  rewrite Hc0. cbv zeta.
+  destruct (adjust_level_f (set_tok p TWhitespace []) (ptt p)) as (_ & F2 & _). rewrite F2. cbn [set_tok prevws].
+  unfold after_first, ia_next, combinator.
+  destruct (one_of [44; 62; 43; 126] (pdata p)), (prevws p); reflexivity.
+Qed.
+
+Lemma after_first_f p : pl (after_first p) = pl p /\ pbuf (after_first p) = pbuf p ++ [(ptt p, pdata p)] /\
+  plevel (after_first p) = tok_lv (plevel p) (ptt p) /\ ptt (after_first p) = TWhitespace /\ pdata (after_first p) = [] /\
+  keepws (after_first p) = keepws p /\ pst (after_first p) = pst p /\ perr (after_first p) = perr p /\
+  prevend (after_first p) = prevend p /\ isstyle (after_first p) = isstyle p.
+Proof. unfold after_first, adjust_level, tok_lv. destruct (opens (ptt p)), (closes (ptt p)); cbn; repeat split. Qed.
+
+(* the '{' that ends the selector *)
+Lemma qual_end f F p o lb ts ia sk : css_inv (pl p) -> keepws p = false -> (1 <= F)%nat -> plevel p = 0 ->
+  lexes (pl p) (optws o ++ (TLeftBrace, lb) :: ts) ->
+  exists z', css_inv z' /\ lexes z' ts /\
+    qualified_loop (S f) F p false ia sk = POk (GBeginRuleset, push_st (relex p z' (isws o) false) SQualifiedRuleDeclarationList).
+Proof.
+  intros Hi Hkw HF Hlv Hl.
+  destruct (pop_token_ows F false p o TLeftBrace lb ts Hi Hkw Hl eq_refl HF) as (z' & Hpop & Hl' & Hi').
+  exists z'. split; [exact Hi'|]. split; [exact Hl'|].
+  cbn [qualified_loop]. rewrite Hpop. cbn [pbind fst snd relex plevel]. rewrite Hlv. evis. reflexivity.
+Qed.
+
+(* the first token of a selector: not one of the tokens the stylesheet state handles itself *)
+Definition sel_first (t : ttype) : bool :=
+  vtok_ok 0 t && negb (is_t t TCDO) && negb (is_t t TCDC) && negb (is_t t TAtKeyword) && negb (is_t t TCustomPropertyName).
+
+(* a ruleset: selector tokens, '{' *)
+Lemma step_begin p st0 o1 t1 b1 (sl : list wtok) o2 lb ts :
+  wf_state p (SStylesheet :: st0) (src_toks ((o1, (t1, b1)) :: sl) ++ optws o2 ++ (TLeftBrace, lb) :: ts) ->
+  sel_first t1 = true -> toks_ok 0 ((o1, (t1, b1)) :: sl) -> lv_after 0 ((o1, (t1, b1)) :: sl) = 0 ->
+  exists p', parse_next p = POk (GBeginRuleset, p') /\ ptt p' = TWhitespace /\ pdata p' = [] /\
+    pbuf p' = expected_sel ((o1, (t1, b1)) :: sl) /\ perr p' = false /\
+    wf_state p' (SQualifiedRuleDeclarationList :: SStylesheet :: st0) ts.
+Proof.
+  intros (Hi & Hl & Hst & Hlv & Hpe & Hkw & Hsty) Hfirst Hok Hlv0.
+  rewrite src_toks_cons in Hl. cbn [toks_ok fst snd] in Hok. destruct Hok as (Hv1 & Hok). cbn [lv_after fst snd] in Hlv0.
+  unfold sel_first in Hfirst. repeat (apply andb_true_iff in Hfirst; destruct Hfirst as [Hfirst ?]).
+  repeat match goal with X : negb _ = true |- _ => apply negb_true_iff in X end.
+  destruct (vtok_ok_inv _ _ Hv1) as (Hp1 & Herr1 & Hlb1 & Hrb1 & Hsemi1 & Hcl1 & Hws1).
+  assert (Hcm1 : is_t t1 TComment = false).
+  { unfold plain_tok in Hp1. apply andb_true_iff in Hp1. destruct Hp1 as [_ Hx]. apply negb_true_iff in Hx. exact Hx. }
+  assert (HN : exists f', next_fuel p = S (length sl + S f')).
+  { pose proof (lexes_len _ _ Hi Hl) as Hlen. eapply fuel_split; [exact Hlen|].
+    rewrite app_length. cbn [length]. rewrite app_length. rewrite app_length. cbn [length]. pose proof (src_toks_len sl) as Hsl.
+    clear - Hsl. unfold wtok, tok in *. lia. }
+  destruct HN as (f' & HN). assert (HF : (1 <= next_fuel p)%nat) by (apply next_fuel_pos; exact Hi).
+  unfold parse_next. cbv zeta. change (prevend (set_err p false)) with (prevend p). rewrite Hpe.
+  destruct (pop_token_ows (next_fuel p) true (set_err p false) o1 t1 b1 _ Hi Hkw Hl Hp1 HF) as (z1 & Hpop & Hl1 & Hi1).
+  rewrite Hpop. cbn [pbind fst snd]. cbn [set_tok relex set_err pst]. rewrite Hst.
+  unfold parse_stylesheet. cbn [set_tok ptt].
+  repeat match goal with X : is_t t1 _ = false |- _ => rewrite X end. cbn [orb].
+  unfold parse_qualified_rule.
+  assert (Hq : forall q, qualified_loop (next_fuel p) (next_fuel p) q true false true =
+                         qualified_loop (S (length sl + S f')) (next_fuel p) q true false true)
+    by (intros q; rewrite HN at 1; reflexivity).
+  rewrite Hq. clear Hq.
+  match goal with |- context [qualified_loop _ _ ?q true false true] => set (q0 := q) end.
+  assert (Hv0 : vtok_ok (plevel q0) (ptt q0) = true) by (subst q0; cbn [set_buf set_tok relex set_err plevel ptt]; rewrite Hlv; exact Hv1).
+  rewrite (qual_first _ _ q0 Hv0).
+  destruct (after_first_f q0) as (A1 & A2 & A3 & A4 & A5 & A6 & A7 & A8 & A9 & A10).
+  set (q1 := after_first q0) in *.
+  assert (Hq0 : pl q0 = z1 /\ pbuf q0 = [] /\ plevel q0 = 0 /\ ptt q0 = t1 /\ pdata q0 = b1 /\ keepws q0 = false /\
+                pst q0 = SStylesheet :: st0 /\ perr q0 = false /\ prevend q0 = false /\ isstyle q0 = true).
+  { subst q0. cbn [set_buf set_tok relex set_err pl pbuf plevel ptt pdata keepws pst perr prevend isstyle]. repeat split; assumption. }
+  destruct Hq0 as (B1 & B2 & B3 & B4 & B5 & B6 & B7 & B8 & B9 & B10).
+  destruct (qual_tokens (next_fuel p) (optws o2 ++ (TLeftBrace, lb) :: ts) HF sl (S f') q1
+              (ia_next false (ptt q0)) (combinator (pdata q0))) as (q2 & ia' & sk' & Hrun & Hi2 & Hl2 & Hb2 & Hlv2 & Hs2).
+  { rewrite A1, B1. exact Hi1. }
+  { rewrite A6. exact B6. }
+  { rewrite A1, B1. exact Hl1. }
+  { rewrite A3, B3, B4. exact Hok. }
+  rewrite Hrun. destruct Hs2 as (S1 & S2 & S3 & S4 & S5 & S6 & S7).
+  destruct (qual_end f' (next_fuel p) q2 o2 lb ts ia' sk' Hi2) as (z3 & Hi3 & Hl3 & Heq3).
+  { rewrite S1, A6. exact B6. }
+  { exact HF. }
+  { rewrite Hlv2, A3, B3, B4. exact Hlv0. }
+  { exact Hl2. }
+  rewrite Heq3. eexists. split; [reflexivity|].
+  cbn [push_st set_st relex ptt pdata pbuf perr].
+  split; [rewrite S3; exact A4|]. split; [rewrite S4; exact A5|].
+  split.
+  { rewrite Hb2, A2, B2, B4, B5. unfold expected_sel. cbn [sel_buf fst snd app].
+    assert (Hno : addws_sel (isws o1) true false b1 = false) by (unfold addws_sel; destruct (combinator b1), (isws o1); reflexivity).
+    rewrite Hno. reflexivity. }
+  split; [rewrite S5, A8; exact B8|].
+  unfold wf_state. cbn [push_st set_st relex pl pst plevel prevend keepws isstyle].
+  split; [exact Hi3|]. split; [exact Hl3|]. split; [rewrite S2, A7, B7; reflexivity|].
+  split; [rewrite Hlv2, A3, B3, B4; exact Hlv0|]. split; [rewrite S6, A9; exact B9|]. split; [rewrite S1, A6; exact B6|].
+  rewrite S7, A10. exact B10.
+Qed.
+
+(* Next in a declaration list, on a property name: everything up to the loop of parseDeclaration *)
+Lemma decl_head p st0 o1 prop ts : wf_state p (SQualifiedRuleDeclarationList :: st0) (optws o1 ++ (TIdent, prop) :: ts) ->
+  exists p0, parse_next p = declaration_loop (next_fuel p) (next_fuel p) p0 /\ css_inv (pl p0) /\ lexes (pl p0) ts /\
+    pbuf p0 = [(TIdent, prop)] /\ ptt p0 = TIdent /\ pdata p0 = prop /\ pst p0 = SQualifiedRuleDeclarationList :: st0 /\
+    plevel p0 = 0 /\ prevend p0 = false /\ keepws p0 = false /\ isstyle p0 = true /\ perr p0 = false.
+Proof.
+  intros (Hi & Hl & Hst & Hlv & Hpe & Hkw & Hsty).
+  unfold parse_next. cbv zeta. change (prevend (set_err p false)) with (prevend p). rewrite Hpe.
+  destruct (pop_token_ows (next_fuel p) true (set_err p false) o1 TIdent prop ts Hi Hkw Hl eq_refl (next_fuel_pos p Hi))
+    as (z1 & Hpop & Hl1 & Hi1).
+  rewrite Hpop. cbn [pbind fst snd]. cbn [set_tok relex set_err pst]. rewrite Hst.
+  unfold parse_qualified_rule_declaration_list. rewrite skip_semicolons_none by (cbn; discriminate). cbn [pbind]. cbv zeta.
+  cbn [set_tok ptt]. evis. cbn [orb].
+  unfold parse_declaration_list. cbn [set_tok ptt]. evis. cbn [pbind].
+  rewrite skip_semicolons_none by (cbn; discriminate). cbn [pbind set_tok ptt]. evis. cbn [pbind orb]. cbv zeta. cbn [set_tok ptt]. evis.
+  cbn [orb]. unfold parse_declaration. cbn [set_tok ptt pdata]. evis. cbv beta iota.
+  eexists. split; [reflexivity|].
+  cbn [set_buf set_tok relex set_err pl pbuf ptt pdata pst plevel prevend keepws isstyle perr].
+  split; [exact Hi1|]. split; [exact Hl1|]. repeat split; assumption.
+Qed.
+
+(* a declaration  ident ':' value-tokens ';'  inside a ruleset, with optional whitespace before each of its tokens *)
+Lemma step_decl p st0 o1 prop o2 c vl o4 s ts :
+  wf_state p (SQualifiedRuleDeclarationList :: st0)
+           (optws o1 ++ (TIdent, prop) :: optws o2 ++ (TColon, c) :: src_toks vl ++ optws o4 ++ (TSemicolon, s) :: ts) ->
+  vl <> [] -> toks_ok 0 vl -> lv_after 0 vl = 0 ->
+  exists p', parse_next p = POk (GDeclaration, p') /\ ptt p' = TIdent /\ pdata p' = to_lower prop /\
+    pbuf p' = expected_vals vl /\ perr p' = false /\ wf_state p' (SQualifiedRuleDeclarationList :: st0) ts.
+Proof.
+  intros Hw Hne Hok Hlv0. pose proof Hw as (Hi & Hl & _).
+  destruct (decl_head p st0 o1 prop _ Hw) as (p0 & Hpn & Hi0 & Hl0 & Hb0 & Ht0 & Hd0 & Hst0 & Hlv & Hpe0 & Hkw0 & Hsty0 & Herr0).
+  (* fuel *)
+  assert (HN : exists f', next_fuel p = S (length vl + S f')).
+  { pose proof (lexes_len _ _ Hi Hl) as Hlen. eapply fuel_split; [exact Hlen|].
+    rewrite app_length. cbn [length]. rewrite app_length. cbn [length]. rewrite app_length. pose proof (src_toks_len vl) as Hsl.
+    clear - Hsl. unfold wtok, tok in *. lia. }
+  destruct HN as (f' & HN). assert (HF : (1 <= next_fuel p)%nat) by (apply next_fuel_pos; exact Hi).
+  rewrite HN in Hpn at 1. rewrite Hpn.
   (* ':' *)
-  all: unfold F at 1; rewrite declaration_loop_S.
-  all: match goal with |- context [pop_token _ false ?q] => set (q1 := q) end.
-  all: assert (Hiq1 : css_inv (pl q1)) by exact Hi1.
-  all: assert (Hkq1 : keepws q1 = false) by exact Hkw.
-  all: pop_tac F false q1 Hiq1 Hkq1 Hl1 (eq_refl true) HF1 z2 Hpop2 Hl2 Hi2.
-  all: rewrite Hpop2; cbn [pbind fst snd]; unfold ends_unit; evis; cbn [orb andb]; unfold closes; evis; cbn [orb andb].
-  all: unfold adjust_level, opens, closes; evis; cbn [orb]; subst q1.
-  all: cbn [relex set_buf set_tok set_err pbuf rev app of_opt pbind prevws prevcomment orb andb].
-  all: try unfold is_wstok; cbn [fst]; evis; cbn [negb andb].
-  all: cbn [push_buf relex set_buf set_tok set_err pbuf app].
+  destruct (decl_iter (length vl + S f') (next_fuel p) p0 o2 TColon c _ Hi0 Hkw0 HF Hl0) as (z1 & Hi1 & Hl1 & Heq1).
+  { rewrite Hlv. reflexivity. }
+  { exists [], (TIdent, prop). split; [rewrite Hb0; reflexivity|reflexivity]. }
+  rewrite Heq1. destruct (after_tok_f p0 z1 (isws o2) TColon c) as (G1 & G2 & G3 & G4).
+  set (p1 := after_tok p0 z1 (isws o2) TColon c) in *.
   (* the value *)
-  all: rewrite declaration_loop_S.
-  all: match goal with |- context [pop_token _ false ?q] => set (q2 := q) end.
-  all: assert (Hiq2 : css_inv (pl q2)) by exact Hi2.
-  all: assert (Hkq2 : keepws q2 = false) by exact Hkw.
-  all: pop_tac F false q2 Hiq2 Hkq2 Hl2 Hplain HF1 z3 Hpop3 Hl3 Hi3.
-  all: rewrite Hpop3; cbn [pbind fst snd].
-  all: match goal with |- context [ends_unit ?q ?vv] => destruct (Hnot q) as (Hn_e & Hn_l & Hn_c & Hn_o) end.
-  all: rewrite Hn_e, Hn_l, Hn_c; cbn [andb]; unfold adjust_level; rewrite Hn_o, Hn_c; subst q2.
-  all: cbn [relex push_buf set_buf set_tok set_err pbuf rev app of_opt pbind prevws prevcomment orb andb].
-  all: try unfold is_wstok; cbn [fst]; evis; cbn [negb andb].
-  all: cbn [push_buf relex set_buf set_tok set_err pbuf app].
+  destruct (decl_values (next_fuel p) (optws o4 ++ (TSemicolon, s) :: ts) HF vl (S f') p1) as (p2 & Hrun & Hi2 & Hl2 & Hb2 & Hlv2 & Hs2).
+  { rewrite G1. exact Hi1. }
+  { destruct G4 as (G4 & _). rewrite G4. exact Hkw0. }
+  { rewrite G1. exact Hl1. }
+  { rewrite G3, Hlv. exact Hok. }
+  { exists (pbuf p0 ++ (if isws o2 then [sp] else [])), (TColon, c). split; [rewrite G2, app_assoc; reflexivity|reflexivity]. }
+  rewrite Hrun.
+  pose proof (rest_same_trans _ _ _ G4 Hs2) as (S1 & S2 & S3 & S4 & S5 & S6 & S7).
   (* ';' *)
-  all: rewrite declaration_loop_S.
-  all: match goal with |- context [pop_token _ false ?q] => set (q3 := q) end.
-  all: assert (Hiq3 : css_inv (pl q3)) by exact Hi3.
-  all: assert (Hkq3 : keepws q3 = false) by exact Hkw.
-  all: pop_tac F false q3 Hiq3 Hkq3 Hl3 (eq_refl true) HF1 z4 Hpop4 Hl4 Hi4.
-  all: rewrite Hpop4; cbn [pbind fst snd]; unfold ends_unit; evis.
-  all: match goal with |- context [plevel (relex ?pp ?zz ?w false)] =>
-         assert (Hlvq3 : plevel (relex pp zz w false) = 0) by exact Hlv; rewrite Hlvq3 end.
-  all: cbn [Z.eqb orb andb]; subst q3.
-  all: repeat (progress (cbn [relex push_buf set_buf set_tok set_err pbuf app drop_ws fst compact rev]; try unfold is_wstok; cbn [fst]; evis; rewrite ?Hws)).
-  all: eexists; split; [reflexivity|].
-  all: cbn [set_prevend set_tok set_buf relex set_err ptt pdata pbuf perr].
-  all: split; [reflexivity|]; split; [reflexivity|]; split; [reflexivity|]; split; [reflexivity|].
-  all: unfold wf_state; cbn [set_prevend set_tok set_buf relex set_err pl pst plevel prevend keepws isstyle].
-  all: split; [exact Hi4|]; split; [exact Hl4|]; auto.
+  destruct (decl_end f' (next_fuel p) p2 o4 s ts (TIdent, prop)
+              ((if isws o2 then [sp] else []) ++ (TColon, c) :: buf_toks vl) c (buf_toks vl) Hi2) as (z3 & Hi3 & Hl3 & Heq3).
+  { rewrite S1. exact Hkw0. }
+  { exact HF. }
+  { rewrite Hlv2, G3, Hlv. exact Hlv0. }
+  { exact Hl2. }
+  { rewrite Hb2, G2, Hb0. cbn [app]. rewrite <- app_assoc. reflexivity. }
+  { destruct o2; cbn [isws app drop_ws]; [change (is_wstok sp) with true; cbv beta iota; cbn [drop_ws]|]; reflexivity. }
+  rewrite Heq3. eexists. split; [reflexivity|].
+  cbn [set_prevend set_tok set_buf relex ptt pdata pbuf perr].
+  split; [rewrite S3; exact Ht0|]. split; [rewrite S4, Hd0; reflexivity|].
+  split; [eapply compact_expected; eassumption|]. split; [rewrite S5; exact Herr0|].
+  unfold wf_state. cbn [set_prevend set_tok set_buf relex pl pst plevel prevend keepws isstyle].
+  split; [exact Hi3|]. split; [exact Hl3|]. split; [rewrite S2; exact Hst0|]. split; [rewrite Hlv2, G3, Hlv; exact Hlv0|].
+  split; [reflexivity|]. split; [rewrite S1; exact Hkw0|rewrite S7; exact Hsty0].
 Qed.
 
 (* --- the grammar and the units it denotes ------------------------------------------------------------------------ *)
-(* w1 property w2 ':' w3 value w4 ';' *)
-Record decl_t := mkDecl { d_w1 : ws_t; d_prop : list Z; d_w2 : ws_t; d_w3 : ws_t; d_vt : ttype; d_vb : list Z; d_w4 : ws_t }.
-(* w1 selector w2 '{' declarations w3 '}' *)
-Record rule_t := mkRule { r_w1 : ws_t; r_sel : list Z; r_w2 : ws_t; r_decls : list decl_t; r_w3 : ws_t }.
+(* w1 property w2 ':' value-tokens (each with the whitespace before it) w4 ';' *)
+Record decl_t := mkDecl { d_w1 : ws_t; d_prop : list Z; d_w2 : ws_t; d_vals : list wtok; d_w4 : ws_t }.
+(* selector tokens (each with the whitespace before it) w2 '{' declarations w3 '}' *)
+Record rule_t := mkRule { r_sel : list wtok; r_w2 : ws_t; r_decls : list decl_t; r_w3 : ws_t }.
 
 Definition decl_toks (d : decl_t) : list tok :=
-  optws (d_w1 d) ++ (TIdent, d_prop d) :: optws (d_w2 d) ++ (TColon, [58]) :: optws (d_w3 d) ++ (d_vt d, d_vb d) ::
+  optws (d_w1 d) ++ (TIdent, d_prop d) :: optws (d_w2 d) ++ (TColon, [58]) :: src_toks (d_vals d) ++
   optws (d_w4 d) ++ [(TSemicolon, [59])].
 Definition rule_toks (r : rule_t) : list tok :=
-  optws (r_w1 r) ++ (TIdent, r_sel r) :: optws (r_w2 r) ++ (TLeftBrace, [123]) :: concat (map decl_toks (r_decls r)) ++
+  src_toks (r_sel r) ++ optws (r_w2 r) ++ (TLeftBrace, [123]) :: concat (map decl_toks (r_decls r)) ++
   optws (r_w3 r) ++ [(TRightBrace, [125])].
 
-Definition decl_ok (d : decl_t) : Prop := is_val (d_vt d) = true /\ punct (d_vt d, d_vb d) = false.
-Definition rule_ok (r : rule_t) : Prop := one_of [44; 62; 43; 126] (r_sel r) = false /\ Forall decl_ok (r_decls r).
+Definition decl_ok (d : decl_t) : Prop := d_vals d <> [] /\ toks_ok 0 (d_vals d) /\ lv_after 0 (d_vals d) = 0.
+Definition sel_ok (l : list wtok) : Prop :=
+  match l with x :: _ => sel_first (fst (snd x)) = true | [] => False end /\ toks_ok 0 l /\ lv_after 0 l = 0.
+Definition rule_ok (r : rule_t) : Prop := sel_ok (r_sel r) /\ Forall decl_ok (r_decls r).
 
 (* what the caller sees of one call: grammar type, token type, data, and Values() for the units that set them *)
 Definition unit_t := (gtype * ttype * list Z * list tok)%type.
@@ -344,9 +673,9 @@ Definition view (r : gtype * parser) : unit_t :=
   | g => (g, ptt (snd r), pdata (snd r), [])
   end.
 
-Definition decl_unit (d : decl_t) : unit_t := (GDeclaration, TIdent, to_lower (d_prop d), [(d_vt d, d_vb d)]).
+Definition decl_unit (d : decl_t) : unit_t := (GDeclaration, TIdent, to_lower (d_prop d), expected_vals (d_vals d)).
 Definition rule_units (r : rule_t) : list unit_t :=
-  (GBeginRuleset, TWhitespace, [], [(TIdent, r_sel r)]) :: map decl_unit (r_decls r) ++ [(GEndRuleset, TRightBrace, [125], [])].
+  (GBeginRuleset, TWhitespace, [], expected_sel (r_sel r)) :: map decl_unit (r_decls r) ++ [(GEndRuleset, TRightBrace, [125], [])].
 
 Definition last_state (p : parser) (tr : list (gtype * parser)) : parser :=
   match rev tr with r :: _ => snd r | [] => p end.
@@ -375,16 +704,16 @@ Lemma decls_run : forall decls p st0 rest,
   exists tr, parse_run (length decls) p = POk tr /\ map view tr = map decl_unit decls /\ no_err tr /\
     wf_state (last_state p tr) (SQualifiedRuleDeclarationList :: st0) rest.
 Proof.
-  induction decls as [|[w1 prop w2 w3 vt vb w4] decls IH]; intros p st0 rest Hw Hok.
+  induction decls as [|[w1 prop w2 vl w4] decls IH]; intros p st0 rest Hw Hok.
   - exists []. cbn [length parse_run map concat app] in *. split; [reflexivity|]. split; [reflexivity|]. split; [constructor|exact Hw].
-  - inversion Hok as [|? ? Hd0 Hok']; subst. unfold decl_ok in Hd0. cbn [d_vt d_vb] in Hd0. destruct Hd0 as (Hv & Hp).
-    cbn [map concat] in Hw. unfold decl_toks at 1 in Hw. cbn [d_w1 d_prop d_w2 d_w3 d_vt d_vb d_w4] in Hw.
+  - inversion Hok as [|? ? Hd0 Hok']; subst. unfold decl_ok in Hd0. cbn [d_vals] in Hd0. destruct Hd0 as (Hv & Hp & Hq).
+    cbn [map concat] in Hw. unfold decl_toks at 1 in Hw. cbn [d_w1 d_prop d_w2 d_vals d_w4] in Hw.
     repeat (rewrite <- app_assoc in Hw; cbn [app] in Hw).
-    destruct (step_decl p st0 w1 prop w2 [58] w3 vt vb w4 [59] _ Hw Hv Hp) as (p1 & Hn & Ht & Hd & Hb & He & Hw1).
+    destruct (step_decl p st0 w1 prop w2 [58] vl w4 [59] _ Hw Hv Hp Hq) as (p1 & Hn & Ht & Hd & Hb & He & Hw1).
     destruct (IH p1 st0 rest Hw1 Hok') as (tr & Hrun & Hview & Hne & Hlast).
     exists ((GDeclaration, p1) :: tr). split; [|split; [|split]].
     + cbn [length parse_run]. rewrite Hn. cbn [pbind snd]. rewrite Hrun. reflexivity.
-    + cbn [map]. rewrite Hview. f_equal. unfold view, decl_unit. cbn [fst snd d_prop d_vt d_vb]. rewrite Ht, Hd, Hb. reflexivity.
+    + cbn [map]. rewrite Hview. f_equal. unfold view, decl_unit. cbn [fst snd d_prop d_vals]. rewrite Ht, Hd, Hb. reflexivity.
     + constructor; [exact He|exact Hne].
     + rewrite last_state_cons. exact Hlast.
 Qed.
@@ -394,12 +723,13 @@ Lemma rules_run : forall rules p rest,
   exists tr, parse_run (length (concat (map rule_units rules))) p = POk tr /\
     map view tr = concat (map rule_units rules) /\ no_err tr /\ wf_state (last_state p tr) [SStylesheet] rest.
 Proof.
-  induction rules as [|[w1 sel w2 decls w3] rules IH]; intros p rest Hw Hok.
+  induction rules as [|[sel w2 decls w3] rules IH]; intros p rest Hw Hok.
   - exists []. cbn [map concat length parse_run app] in *. split; [reflexivity|]. split; [reflexivity|]. split; [constructor|exact Hw].
   - inversion Hok as [|? ? (Hs & Hd) Hok']; subst. cbn [r_sel r_decls] in *.
-    cbn [map concat] in Hw. unfold rule_toks at 1 in Hw. cbn [r_w1 r_sel r_w2 r_decls r_w3] in Hw.
+    cbn [map concat] in Hw. unfold rule_toks at 1 in Hw. cbn [r_sel r_w2 r_decls r_w3] in Hw.
+    destruct Hs as (Hs1 & Hs2 & Hs3). destruct sel as [|[o1 [t1 b1]] sl]; [contradiction|]. cbn [fst snd] in Hs1.
     repeat (rewrite <- app_assoc in Hw; cbn [app] in Hw).
-    destruct (step_begin p [] w1 sel w2 [123] _ Hw Hs) as (p1 & Hn1 & Ht1 & Hd1 & Hb1 & He1 & Hw1).
+    destruct (step_begin p [] o1 t1 b1 sl w2 [123] _ Hw Hs1 Hs2 Hs3) as (p1 & Hn1 & Ht1 & Hd1 & Hb1 & He1 & Hw1).
     destruct (decls_run decls p1 [SStylesheet] _ Hw1 Hd) as (tr2 & Hrun2 & Hview2 & Hne2 & Hw2).
     destruct (step_end _ [SStylesheet] w3 [125] _ Hw2) as (p3 & Hn3 & Ht3 & Hd3 & He3 & Hw3).
     destruct (IH p3 rest Hw3 Hok') as (tr4 & Hrun4 & Hview4 & Hne4 & Hw4).
@@ -451,24 +781,58 @@ Qed.
 
 (* "a{B:1;c:x;}d{}"  and  " a {\n B : 1 ;c:x; }\nd{}\n" *)
 Example wellformed_example :
-  let rules := [mkRule None [97] None [mkDecl None [66] None None TNumber [49] None; mkDecl None [99] None None TIdent [120] None] None;
-                mkRule None [100] None [] None] in
+  let rules := [mkRule [(None, (TIdent, [97]))] None [mkDecl None [66] None [(None, (TNumber, [49]))] None; mkDecl None [99] None [(None, (TIdent, [120]))] None] None;
+                mkRule [(None, (TIdent, [100]))] None [] None] in
   css_lex [97; 123; 66; 58; 49; 59; 99; 58; 120; 59; 125; 100; 123; 125] = LexDone (concat (map rule_toks rules) ++ optws None) /\
   Forall rule_ok rules.
 Proof.
   cbv zeta. split; [vm_compute; reflexivity|].
-  repeat constructor.
+  repeat (first [discriminate | reflexivity | constructor]).
 Qed.
 
 Example wellformed_example_ws :
-  let rules := [mkRule (Some [32]) [97] (Some [32])
-                  [mkDecl (Some [10; 32]) [66] (Some [32]) (Some [32]) TNumber [49] (Some [32]);
-                   mkDecl None [99] None None TIdent [120] None] (Some [32]);
-                mkRule (Some [10]) [100] None [] None] in
+  let rules := [mkRule [(Some [32], (TIdent, [97]))] (Some [32])
+                  [mkDecl (Some [10; 32]) [66] (Some [32]) [(Some [32], (TNumber, [49]))] (Some [32]);
+                   mkDecl None [99] None [(None, (TIdent, [120]))] None] (Some [32]);
+                mkRule [(Some [10], (TIdent, [100]))] None [] None] in
   css_lex [32; 97; 32; 123; 10; 32; 66; 32; 58; 32; 49; 32; 59; 99; 58; 120; 59; 32; 125; 10; 100; 123; 125; 10] =
     LexDone (concat (map rule_toks rules) ++ optws (Some [10])) /\
   Forall rule_ok rules.
 Proof.
   cbv zeta. split; [vm_compute; reflexivity|].
-  repeat constructor.
+  repeat (first [discriminate | reflexivity | constructor]).
+Qed.
+
+(* "a{b: 1px  solid , red ;c:rgb(1, 2)}" : Values() = [1px " " solid , red] and [rgb( 1 , 2 )] *)
+Example wellformed_example_values :
+  let rules := [mkRule [(None, (TIdent, [97]))] None
+                  [mkDecl None [98] None [(Some [32], (TDimension, [49; 112; 120])); (Some [32; 32], (TIdent, [115; 111; 108; 105; 100]));
+                                         (Some [32], (TComma, [44])); (Some [32], (TIdent, [114; 101; 100]))] (Some [32]);
+                   mkDecl None [99] None [(None, (TFunction, [114; 103; 98; 40])); (None, (TNumber, [49])); (None, (TComma, [44]));
+                                         (Some [32], (TNumber, [50])); (None, (TRightParenthesis, [41]))] None] None] in
+  css_lex [97; 123; 98; 58; 32; 49; 112; 120; 32; 32; 115; 111; 108; 105; 100; 32; 44; 32; 114; 101; 100; 32; 59;
+           99; 58; 114; 103; 98; 40; 49; 44; 32; 50; 41; 59; 125] = LexDone (concat (map rule_toks rules) ++ optws None) /\
+  Forall rule_ok rules /\
+  map decl_unit (r_decls (hd (mkRule [] None [] None) rules)) =
+    [(GDeclaration, TIdent, [98], [(TDimension, [49; 112; 120]); sp; (TIdent, [115; 111; 108; 105; 100]); (TComma, [44]); (TIdent, [114; 101; 100])]);
+     (GDeclaration, TIdent, [99], [(TFunction, [114; 103; 98; 40]); (TNumber, [49]); (TComma, [44]); (TNumber, [50]); (TRightParenthesis, [41])])].
+Proof.
+  cbv zeta. split; [vm_compute; reflexivity|]. split; [|vm_compute; reflexivity].
+  repeat (first [discriminate | reflexivity | constructor]).
+Qed.
+
+(* "a > b  c,d [ x=y ] e{}" : Values() of BeginRuleset = a > b " " c , d " " [ x = y ] " " e *)
+Example wellformed_example_selector :
+  let sel := [(None, (TIdent, [97])); (Some [32], (TDelim, [62])); (Some [32], (TIdent, [98])); (Some [32; 32], (TIdent, [99]));
+              (None, (TComma, [44])); (None, (TIdent, [100])); (Some [32], (TLeftBracket, [91])); (Some [32], (TIdent, [120]));
+              (None, (TDelim, [61])); (None, (TIdent, [121])); (Some [32], (TRightBracket, [93])); (Some [32], (TIdent, [101]))] in
+  let rules := [mkRule sel None [] None] in
+  css_lex [97; 32; 62; 32; 98; 32; 32; 99; 44; 100; 32; 91; 32; 120; 61; 121; 32; 93; 32; 101; 123; 125] =
+    LexDone (concat (map rule_toks rules) ++ optws None) /\
+  Forall rule_ok rules /\
+  expected_sel sel = [(TIdent, [97]); (TDelim, [62]); (TIdent, [98]); sp; (TIdent, [99]); (TComma, [44]); (TIdent, [100]); sp;
+                      (TLeftBracket, [91]); (TIdent, [120]); (TDelim, [61]); (TIdent, [121]); (TRightBracket, [93]); sp; (TIdent, [101])].
+Proof.
+  cbv zeta. split; [vm_compute; reflexivity|]. split; [|vm_compute; reflexivity].
+  repeat (first [discriminate | reflexivity | constructor]).
 Qed.
